@@ -5,6 +5,7 @@ package main
 import (
 	"bytes"
 	"context"
+	"database/sql"
 	"errors"
 	"fmt"
 	"io"
@@ -25,8 +26,11 @@ import (
 	fspersistor "github.com/jdillenkofer/pithos/internal/cache/persistor/filesystem"
 	"github.com/jdillenkofer/pithos/internal/cache/persistor/inmemory"
 	"github.com/jdillenkofer/pithos/internal/storage/database"
+	repositoryFactory "github.com/jdillenkofer/pithos/internal/storage/database/repository"
 	"github.com/jdillenkofer/pithos/internal/storage/metadatapart/partstore"
 	partcache "github.com/jdillenkofer/pithos/internal/storage/metadatapart/partstore/cache"
+	fspartstore "github.com/jdillenkofer/pithos/internal/storage/metadatapart/partstore/filesystem"
+	sqlpartstore "github.com/jdillenkofer/pithos/internal/storage/metadatapart/partstore/sql"
 )
 
 // C19 — generic cache + cache part store. Case line (see coq/Model/Cache.v):
@@ -241,6 +245,7 @@ type c19Handle struct {
 	got    []byte   // everything read so far
 	allow  [][]byte // oracle: values this reader may legitimately deliver (nil entry list = must not exist)
 	exists bool     // oracle: a value existed at open time
+	rtx    *database.TxController // SQL inner store: the reader's own read-only transaction
 }
 type c19Pending struct {
 	key   string
@@ -263,6 +268,39 @@ type c19Env struct {
 	cur    map[string][]byte // completed value per key / part id; absent = none
 	fail   string
 	broken bool
+	// real inner stores
+	ikind      byte // 0 = double, 'F' filesystem part store, 'S' SQL part store
+	db         database.Database
+	innerCalls func() int
+	wtx        *database.TxController // the open write transaction
+	wctx       context.Context
+	pending    []c19TxOp // oracle: what the open transaction has done
+}
+
+type c19TxOp struct {
+	id  string
+	v   []byte
+	del bool
+}
+
+// real inner store wrapped only to count GetPart calls (cache hit vs pass-through)
+type c19CountInner struct {
+	partstore.PartStore
+	gets int
+}
+
+func (c *c19CountInner) GetPart(ctx context.Context, tx database.Tx, id partstore.PartId) (io.ReadCloser, error) {
+	c.gets++
+	return c.PartStore.GetPart(ctx, tx, id)
+}
+func (c *c19CountInner) Capabilities() partstore.Capabilities { return partstore.CapabilitiesOf(c.PartStore) }
+
+func (e *c19Env) closeHandle(h *c19Handle) {
+	h.rc.Close()
+	if h.rtx != nil {
+		h.rtx.Rollback(context.Background())
+		h.rtx = nil
+	}
 }
 
 func c19Spin() {
@@ -588,7 +626,7 @@ func (e *c19Env) op(f []string) string {
 			partcache.VerifWaitFill(h.rc)
 		}
 		e.guard.check()
-		h.rc.Close()
+		e.closeHandle(h)
 		delete(e.handles, hid)
 		e.guard.check()
 		// a read that reported the injected error may be short; one that reported none must be complete
@@ -600,7 +638,7 @@ func (e *c19Env) op(f []string) string {
 		if !ok {
 			return "bad"
 		}
-		h.rc.Close()
+		e.closeHandle(h)
 		delete(e.handles, hid)
 		e.guard.check()
 		return "ok"
@@ -649,8 +687,67 @@ func (e *c19Env) op(f []string) string {
 		}
 		delete(e.cur, id)
 		return "ok"
-	case "Q", "T", "Tr", "Ts", "Te", "Tc":
+	case "TB":
+		if e.wtx != nil {
+			return "bad"
+		}
+		tx, err := e.db.BeginTx(ctx, &sql.TxOptions{})
+		if err != nil {
+			panic("harness: begin: " + err.Error())
+		}
+		e.wtx, e.wctx, e.pending = tx, database.ContextWithTx(ctx, tx), nil
+		return "ok"
+	case "TP", "TD":
+		if e.wtx == nil {
+			return "bad"
+		}
+		id := f[1]
+		var err error
+		if f[0] == "TP" {
+			v := c19Content(c19Atoi(f[2]), c19Atoi(f[3]))
+			err = e.ps.PutPart(e.wctx, e.wtx, c19PartId(id), bytes.NewReader(v))
+			e.pending = append(e.pending, c19TxOp{id: id, v: v})
+		} else {
+			err = e.ps.DeletePart(e.wctx, e.wtx, c19PartId(id))
+			e.pending = append(e.pending, c19TxOp{id: id, del: true})
+		}
+		e.guard.check()
+		if err != nil {
+			return "err"
+		}
+		return "ok"
+	case "TC", "TR":
+		if e.wtx == nil {
+			return "bad"
+		}
+		var err error
+		if f[0] == "TC" {
+			err = e.wtx.Commit(e.wctx)
+			if err == nil {
+				// oracle: only now do the transaction's writes count
+				for _, p := range e.pending {
+					if p.del {
+						delete(e.cur, p.id)
+					} else {
+						e.newValue(p.id, p.v)
+					}
+				}
+			}
+		} else {
+			err = e.wtx.Rollback(e.wctx)
+		}
+		e.wtx, e.wctx, e.pending = nil, nil, nil
+		e.guard.check()
+		if err != nil {
+			return "err"
+		}
+		return "ok"
+	case "Q", "T", "Tr", "Ts", "Te", "Tc", "Tt", "Ttc":
 		hid, id, fault := 99, f[1], "n"
+		intx := f[0] == "Tt" || f[0] == "Ttc"
+		if intx && e.wtx == nil {
+			return "bad"
+		}
 		switch f[0] {
 		case "Q":
 			hid, id = c19Atoi(f[1]), f[2]
@@ -675,9 +772,27 @@ func (e *c19Env) op(f []string) string {
 		case 's':
 			e.sp.arm(int64(c19Atoi(fault[1:])))
 		}
-		calls := e.inner.getCalls
+		calls := e.innerCalls()
 		idx := e.sp.count()
-		rc, err := e.ps.GetPart(ctx, nil, c19PartId(id))
+		var rc io.ReadCloser
+		var err error
+		var rtx *database.TxController
+		switch {
+		case intx:
+			rc, err = e.ps.GetPart(e.wctx, e.wtx, c19PartId(id))
+		case e.ikind == 'S': // the SQL part store reads through a transaction: the reader's own read-only one
+			rtx, err = e.db.BeginTx(ctx, &sql.TxOptions{ReadOnly: true})
+			if err != nil {
+				panic("harness: begin read tx: " + err.Error())
+			}
+			rc, err = e.ps.GetPart(database.ContextWithTx(ctx, rtx), rtx, c19PartId(id))
+			if err != nil {
+				rtx.Rollback(ctx)
+				rtx = nil
+			}
+		default:
+			rc, err = e.ps.GetPart(ctx, nil, c19PartId(id))
+		}
 		e.inner.getFailAt, e.inner.getErr = -1, false
 		e.guard.check()
 		if errors.Is(err, c19ErrInjected) {
@@ -687,8 +802,17 @@ func (e *c19Env) op(f []string) string {
 		if err != nil {
 			e.sp.arm(-1) // no fill was started
 		}
+		// oracle: a reader inside the write transaction may also see that transaction's own latest write to the id
+		var own *c19TxOp
+		if intx {
+			for i := range e.pending {
+				if e.pending[i].id == id {
+					own = &e.pending[i]
+				}
+			}
+		}
 		if err == partstore.ErrPartNotFound {
-			if _, ok := e.cur[id]; ok {
+			if _, ok := e.cur[id]; ok && !(own != nil && own.del) {
 				e.setFail("GetPart of an existing part answered not-found")
 			}
 			return "nf"
@@ -697,6 +821,11 @@ func (e *c19Env) op(f []string) string {
 			return "err"
 		}
 		h := e.openHandle(hid, id, rc)
+		h.rtx = rtx
+		if own != nil && !own.del {
+			h.exists = true
+			h.allow = append(h.allow, own.v)
+		}
 		kind := "oh"
 		if isStream, _ := partcache.VerifStreamState(rc); isStream {
 			kind = "os"
@@ -704,14 +833,14 @@ func (e *c19Env) op(f []string) string {
 			if h.sr.failed.Load() { // the persistor failed on its first Read: the fill goroutine ends by itself
 				partcache.VerifWaitFillDone(rc)
 			}
-		} else if e.inner.getCalls > calls {
+		} else if e.innerCalls() > calls {
 			kind = "oi"
 		}
 		e.sp.arm(-1)
 		switch f[0] {
 		case "Q":
 			return kind
-		case "Tc":
+		case "Tc", "Ttc":
 			out := e.op([]string{"R", "99", f[2]})
 			if out != "HANG" {
 				e.op([]string{"C", "99"})
@@ -770,6 +899,31 @@ var c19Quiet sync.Once
 func (c19) Run(in string, scratch string) (res Result) {
 	c19Quiet.Do(func() { slog.SetDefault(slog.New(slog.NewTextHandler(io.Discard, nil))) })
 	f := strings.Split(in, " ")
+	tags := c19Tags(strings.Split(in, " "))
+	var ikind byte
+	if len(f[0]) == 2 {
+		ikind = f[0][1]
+		f[0] = f[0][:1]
+	}
+	// operations that exist only with the double / only with a real inner store (the model answers PARSE-ERROR)
+	for _, o := range strings.Split(f[3], ";") {
+		g := strings.Split(o, ",")
+		doubleOnly := false
+		switch g[0] {
+		case "P", "I", "D", "Pf", "Df", "Ps", "Tr", "Ts", "Te":
+			doubleOnly = true
+		case "Q":
+			doubleOnly = len(g) > 3 && g[3] != "n"
+		}
+		realOnly := false
+		switch g[0] {
+		case "TB", "TP", "TD", "TC", "TR", "Tt", "Ttc":
+			realOnly = true
+		}
+		if ikind == 0 && realOnly || ikind != 0 && doubleOnly {
+			return Result{Out: "PARSE-ERROR", Oracle: "-", Tags: []string{"invalid"}}
+		}
+	}
 	var p persistor.CachePersistor
 	var err error
 	if f[0] == "f" {
@@ -787,12 +941,37 @@ func (c19) Run(in string, scratch string) (res Result) {
 	}
 	guard := &c19GuardCache{inner: gc}
 	inner := &c19Inner{data: map[string][]byte{}, getFailAt: -1}
-	ps, err := partcache.New(guard, inner, partcache.Options{MaxPartSizeBytes: int64(c19Atoi(f[2]))})
+	var innerStore partstore.PartStore = inner
+	innerCalls := func() int { return inner.getCalls }
+	var db database.Database
+	if ikind != 0 {
+		db = c22OpenDB(scratch) // a migrated SQLite database (template copied per case)
+		defer db.Close()
+		var real partstore.PartStore
+		if ikind == 'F' {
+			real, err = fspartstore.New(scratch + "/parts")
+			if err == nil {
+				err = real.Start(context.Background())
+			}
+		} else {
+			repo, rerr := repositoryFactory.NewPartContentRepository(db)
+			if rerr != nil {
+				panic("harness: " + rerr.Error())
+			}
+			real, err = sqlpartstore.New(db, repo)
+		}
+		if err != nil {
+			panic("harness: " + err.Error())
+		}
+		counting := &c19CountInner{PartStore: real}
+		innerStore, innerCalls = counting, func() int { return counting.gets }
+	}
+	ps, err := partcache.New(guard, innerStore, partcache.Options{MaxPartSizeBytes: int64(c19Atoi(f[2]))})
 	if err != nil {
 		panic(err)
 	}
-	e := &c19Env{sp: sp, guard: guard, ps: ps, inner: inner, handles: map[int]*c19Handle{}, sets: map[int]*c19Pending{}, cur: map[string][]byte{}}
-	tags := c19Tags(f)
+	e := &c19Env{sp: sp, guard: guard, ps: ps, inner: inner, handles: map[int]*c19Handle{}, sets: map[int]*c19Pending{}, cur: map[string][]byte{},
+		ikind: ikind, db: db, innerCalls: innerCalls}
 	defer func() {
 		// release goroutines and file handles; after a cache panic the mutex is held for ever, leave those
 		if !guard.dead.Load() {
@@ -801,7 +980,10 @@ func (c19) Run(in string, scratch string) (res Result) {
 				<-pd.done
 			}
 			for _, h := range e.handles {
-				h.rc.Close()
+				e.closeHandle(h)
+			}
+			if e.wtx != nil {
+				e.wtx.Rollback(context.Background())
 			}
 		}
 		if r := recover(); r != nil {
